@@ -126,6 +126,22 @@ fn f64_pair(a: Cmplx, b: Cmplx, acc: &mut Acc) -> Result<(), String> {
     let e = nerr(a * b, ar.mul(br).sub(ai.mul(bi)), ar.mul(bi).add(ai.mul(br)));
     acc.worst("f64_mul_normwise_error", e, at);
     ensure!(e <= ULP_BOUND, "a * b = {:?} off by {:e}", a * b, e);
+    {
+        // the same component-wise demand on the product: a part whose two partial products do not cancel is exact to two roundings
+        let p = a * b;
+        let same_sign = |x: f64, y: f64| x == 0.0 || y == 0.0 || (x > 0.0) == (y > 0.0);
+        let (re, im) = (ar.mul(br).sub(ai.mul(bi)), ar.mul(bi).add(ai.mul(br)));
+        if same_sign(a.real * b.real, -(a.imag * b.imag)) && re.to_f64().abs() > 1e-280 && re.to_f64().abs() < 1e280 {
+            let e = (dd(p.real).sub(re).to_f64() / re.to_f64()).abs();
+            acc.worst("f64_mul_componentwise_error_without_cancellation", e, at);
+            ensure!(e <= ULP_BOUND, "Re(a * b) = {:e} but a.re b.re - a.im b.im = {:e} (no cancellation; relative error {:e})", p.real, re.to_f64(), e);
+        }
+        if same_sign(a.real * b.imag, a.imag * b.real) && im.to_f64().abs() > 1e-280 && im.to_f64().abs() < 1e280 {
+            let e = (dd(p.imag).sub(im).to_f64() / im.to_f64()).abs();
+            acc.worst("f64_mul_componentwise_error_without_cancellation", e, at);
+            ensure!(e <= ULP_BOUND, "Im(a * b) = {:e} but a.re b.im + a.im b.re = {:e} (no cancellation; relative error {:e})", p.imag, im.to_f64(), e);
+        }
+    }
     let nonzero = b.real != 0.0 || b.imag != 0.0;
     if nonzero {
         let den = br.mul(br).add(bi.mul(bi));
@@ -137,6 +153,24 @@ fn f64_pair(a: Cmplx, b: Cmplx, acc: &mut Acc) -> Result<(), String> {
         let mut t = a;
         t /= b;
         ensure!(bits(t) == bits(a / b), "/= is not bit-identical to /: {:?} vs {:?}", t, a / b);
+        // component-wise, where the component involves no cancellation (its two partial products have the same sign or one of them
+        // vanishes): each part of (a c + b d, b c - a d) / (c^2 + d^2) then carries a few roundings only, however small it is
+        // next to the other part - a shortcut that drops a partial product because the divisor is "numerically real" is 1 ulp
+        // off normwise and 100% off in that component
+        let q = a / b;
+        let same_sign = |x: f64, y: f64| x == 0.0 || y == 0.0 || (x > 0.0) == (y > 0.0);
+        let (t1, t2) = (a.real * b.real, a.imag * b.imag);
+        if same_sign(t1, t2) && re.to_f64().abs() > 1e-280 && re.to_f64().abs() < 1e280 {
+            let e = (dd(q.real).sub(re).to_f64() / re.to_f64()).abs();
+            acc.worst("f64_div_componentwise_error_without_cancellation", e, at);
+            ensure!(e <= 2.0 * ULP_BOUND, "Re(a / b) = {:e} but (a.re b.re + a.im b.im) / |b|^2 = {:e} (no cancellation; relative error {:e})", q.real, re.to_f64(), e);
+        }
+        let (t1, t2) = (a.imag * b.real, -(a.real * b.imag));
+        if same_sign(t1, t2) && im.to_f64().abs() > 1e-280 && im.to_f64().abs() < 1e280 {
+            let e = (dd(q.imag).sub(im).to_f64() / im.to_f64()).abs();
+            acc.worst("f64_div_componentwise_error_without_cancellation", e, at);
+            ensure!(e <= 2.0 * ULP_BOUND, "Im(a / b) = {:e} but (a.im b.re - a.re b.im) / |b|^2 = {:e} (no cancellation; relative error {:e})", q.imag, im.to_f64(), e);
+        }
     }
     // compound forms are bit-identical to the binary forms
     let mut t = a;
@@ -291,11 +325,13 @@ impl Sut for St {
 fn main() {
     let ctx = Ctx::from_args("C13");
     ctx.level("model_checking");
-    ctx.rule("E1: all 1296 ordered pairs of Complex<Rat> with components in {0,1,-1,2,1/2,-3/2}: + - * / neg conj abs_sqr, the mixed real forms and every compound assignment against independently coded field formulae (exact); identities; equality and lexicographic order (trichotomy; transitivity on all triples of 25 values). Complex<f64>: all 11^4 pairs with components in {0,-0,+-1,3,1/3,-7.5,+-1e-100,+-1e100}: double-double reference, normwise error <= 8 eps, every compound / mixed form bit-identical to its binary form. E2: BFS over sequences of compound assignments (complex and real operands), negation and conjugation on one Complex<Rat>. Non-trivial: pairs with all four components non-zero, purely real/imaginary operands, in-place multiply/divide.");
+    ctx.rule("E1: all 1296 ordered pairs of Complex<Rat> with components in {0,1,-1,2,1/2,-3/2}: + - * / neg conj abs_sqr, the mixed real forms and every compound assignment against independently coded field formulae (exact); identities; equality and lexicographic order (trichotomy; transitivity on all triples of 25 values). Complex<f64>: all 11^4 pairs with components in {0,-0,+-1,3,1/3,-7.5,+-1e-100,+-1e100}: double-double reference, normwise error <= 8 eps, each part of a product / quotient whose two partial products do not cancel to 8 / 16 eps relative to itself, every compound / mixed form bit-identical to its binary form. E2: BFS over sequences of compound assignments (complex and real operands), negation and conjugation on one Complex<Rat>. Non-trivial: pairs with all four components non-zero, purely real/imaginary operands, in-place multiply/divide.");
     ctx.assume("f64 components stay inside 1e-100..1e100 so that no intermediate overflows or underflows");
     for n in ["f64_add_normwise_error", "f64_sub_normwise_error", "f64_mul_normwise_error", "f64_div_normwise_error"] {
         ctx.threshold(n, ULP_BOUND);
     }
+    ctx.threshold("f64_div_componentwise_error_without_cancellation", 2.0 * ULP_BOUND);
+    ctx.threshold("f64_mul_componentwise_error_without_cancellation", ULP_BOUND);
     ctx.require(&["all four components non-zero", "purely real or imaginary operand", "in-place complex multiply", "in-place complex divide", "transitivity triples"]);
     let comps = q6();
     let vals: Vec<CQ> = comps.iter().flat_map(|a| comps.iter().map(move |b| CQ::new(*a, *b))).collect();
